@@ -228,6 +228,18 @@ def shard_entry(job, conn):
         conn.close()
 
 
+def shrink_entry(args, conn):
+    try:
+        import ctypes, signal
+        ctypes.CDLL("libc.so.6").prctl(1, signal.SIGKILL)
+    except Exception:
+        pass
+    try:
+        conn.send(shrink_worker(args))
+    finally:
+        conn.close()
+
+
 def shrink_worker(args):
     modname, shard, seed, n, tier, bucket, known_ids = args
     import importlib
